@@ -22,7 +22,7 @@ PROPS = {
         "random: rapid lists of 0..8 cues (ns and ms granularity, up to 24 h) with d biased to cue boundaries +-1ns. "
         "Non-trivial = at least one cue removed or clamped; distinct = hash of (list, d, capacity).",
         ["the executable specification of Add in c09_test.go is a faithful transcription of property C09 (start<=end precondition as stated)"],
-        shards=(2, 16), technique="property-based testing against an executable specification (exhaustive small grid + rapid random cases), pointer identity and deep content snapshots",
+        shards=(2, 16), cli=True, technique="property-based testing against an executable specification (exhaustive small grid + rapid random cases), pointer identity and deep content snapshots; the sub-command of the CLI binary vs. the same step through the library (subprocess, byte-identical output or common failure)",
         text="Every (list,d) on the small grid is enumerated and compared with a from-the-statement specification, then random lists at ns/ms granularity; a green run means no counterexample in that space, the grid part is complete.",
         note="Trusted: the 25-line specification in the harness, Go reflect.DeepEqual, rapid.",
         design="5/C09", exhaustive_note=True),
@@ -32,7 +32,7 @@ PROPS = {
         "(thorough: also 4 cues on 0..6) with two texts x f in 1..5 ms x capacity in {len, len+3}; random: rapid lists of 0..10 cues at ms/ns granularity with at most 5000 pieces. "
         "Non-trivial = some cue is cut AND (cues overlap/nest OR the last-listed cue is not the one ending last); distinct = hash of the case.",
         ["the per-cue cutting specification in c10_test.go transcribes property C10; lists are start-ordered and f>0 as the property requires"],
-        shards=(8, 16), technique="property-based testing against an executable per-cue cutting specification (exhaustive grids + rapid), multiset/ordering/identity oracle",
+        shards=(8, 16), cli=True, technique="property-based testing against an executable per-cue cutting specification (exhaustive grids + rapid), multiset/ordering/identity oracle; the sub-command of the CLI binary vs. the same step through the library (subprocess, byte-identical output or common failure)",
         text="The grids named in the property are enumerated completely (3 cues on 0..9 in both tiers, 4 cues on 0..6 in thorough) with both slice-capacity variants, and random larger lists follow; every output is compared with the specification as a multiset, for order, for the no-interior-multiple invariant and for content/identity of every piece.",
         note="Trusted: the specification (15 lines), rapid. Negative times are outside the property.",
         design="5/C10", exhaustive_note=True),
@@ -42,7 +42,7 @@ PROPS = {
         "Exhaustive: every list of <=3 cues on the 0..4 ms grid (thorough: <=4 cues on 0..3) x 3 texts; random: rapid lists of 0..9 cues. "
         "Non-trivial = a merge happens together with >=2 texts or unordered input (specification), or some cue is cut by Fragment (inverse); distinct = hash of the case.",
         ["texts never contain the ' - ' line joiner, so equality of Item.String() is equality of text", "the inverse law relies on Fragment (C10)"],
-        shards=(4, 16), technique="property-based testing against an executable specification (connected components per text), a second display-equivalence oracle, and the metamorphic law Unfragment(Fragment(L,f)) = L",
+        shards=(4, 16), cli=True, technique="property-based testing against an executable specification (connected components per text), a second display-equivalence oracle, and the metamorphic law Unfragment(Fragment(L,f)) = L; the sub-command of the CLI binary vs. the same step through the library (subprocess, byte-identical output or common failure)",
         text="Component-based specification compared position by position with pointer identity; independently the set of texts on screen at every boundary instant is compared before/after; the Fragment/Unfragment round trip is checked on generated lists satisfying its precondition by construction.",
         note="Trusted: the specification (20 lines), Fragment for the inverse law, rapid.",
         design="5/C11", exhaustive_note=True),
@@ -51,7 +51,7 @@ PROPS = {
         "cases = (list A) for Order; (A, B, style ids, region ids of both sides drawn from {a,b,c,d}, receiver/argument built with or without the constructor) for Merge; rapid random. "
         "Non-trivial = Order: equal starts and unordered input; Merge: equal starts across the two lists, or an identifier clash, or a nil-map receiver that must receive definitions. distinct = hash of the case.",
         ["a receiver 'built without the constructor' is &Subtitles{} whose maps are nil unless it has definitions of that kind itself"],
-        shards=(2, 16), technique="property-based testing against an executable specification (stable sort / ordered union with pointer identity, deep snapshot of the argument)",
+        shards=(2, 16), cli=True, technique="property-based testing against an executable specification (stable sort / ordered union with pointer identity, deep snapshot of the argument); the sub-command of the CLI binary vs. the same step through the library (subprocess, byte-identical output or common failure)",
         text="Order and Merge results are compared with sort.SliceStable over the tagged inputs; map union and receiver-wins are checked by pointer; the argument is compared with a snapshot taken before the call.",
         note="Trusted: Go's sort.SliceStable as the reference for stability, rapid.",
         design="5/C12"),
@@ -70,7 +70,7 @@ PROPS = {
         "cases = (cue list with boundaries in [0,24h] at ns/ms granularity, quadruple a1,d1,a2,d2 with a1 != a2); slopes: the named ratios 25/23.976, 23.976/25, 30/29.97, 29.97/30, 24/23.976, 24/25, 25/24, 1/2, 2, 1 (and +-2 ns neighbours) or uniform in [0.5,2]; a probe cue [a1,a2) is appended so that a1->d1, a2->d2 are observed. "
         "Non-trivial = non-empty list and d1 != d2; distinct = hash of the case.",
         ["boundaries and reference points within [0,24h]; tolerance 1 us per boundary (2 us per length) as the property states"],
-        shards=(2, 16), technique="property-based testing against exact rational arithmetic (math/big), order-preservation and length-scaling relations",
+        shards=(2, 16), cli=True, technique="property-based testing against exact rational arithmetic (math/big), order-preservation and length-scaling relations; the sub-command of the CLI binary vs. the same step through the library (subprocess, byte-identical output or common failure)",
         text="Every mapped boundary is compared with the exact rational value of the affine map; order preservation and length scaling are checked on all pairs.",
         note="Trusted: math/big, rapid.",
         design="5/C15"),
@@ -151,7 +151,7 @@ PROPS = {
         "Non-trivial = >=1 cue and (a definition reachable only through inheritance or a region's style, or some definitions removed and some kept); distinct = hash of the case.",
         ["reachability closure computed by the harness from the model alone (cue -> style, run -> style, cue -> region -> style, style -> parent*)",
          "the write/re-read comparison uses the un-optimized list written the same way as reference (writers are pure: C19)"],
-        shards=(4, 16), technique="property-based testing against a reachability computation (model-based), identity / deep-snapshot oracle for the cues, idempotence, and a differential write->read of the optimized vs un-optimized list through all five writers",
+        shards=(4, 16), cli=True, technique="property-based testing against a reachability computation (model-based), identity / deep-snapshot oracle for the cues, idempotence, and a differential write->read of the optimized vs un-optimized list through all five writers; the sub-command of the CLI binary vs. the same step through the library (subprocess, byte-identical output or common failure)",
         text="Kept definitions must equal the reachability closure exactly (nothing reachable dropped, nothing unreachable kept), by pointer identity; cues compared with snapshots; second call is a no-op; the optimized list is written to all five formats and re-read.",
         note="Trusted: the 20-line closure in the harness, rapid.",
         design="5/C13"),
